@@ -2,7 +2,7 @@
 # re-evaluates every seed kept under /verif/seeded (needs the scratch worktrees under /tmp/wt)
 for d in /verif/seeded/C*/; do
   name=$(basename $d); prop=${name%%-*}; suffix=${name##*-}
-  case $suffix in a) wt=/tmp/wt/$prop; out=/tmp/wt-out/$prop;; b) wt=/tmp/wt/D${prop:1}; out=/tmp/wt-out/D${prop:1};; c) wt=/tmp/wt/E${prop:1}; out=/tmp/wt-out/E${prop:1};; d) wt=/tmp/wt/F${prop:1}; out=/tmp/wt-out/F${prop:1};; e) wt=/tmp/wt/G${prop:1}; out=/tmp/wt-out/G${prop:1};; f) wt=/tmp/wt/H${prop:1}; out=/tmp/wt-out/H${prop:1};; g) wt=/tmp/wt/I${prop:1}; out=/tmp/wt-out/I${prop:1};; h) wt=/tmp/wt/J${prop:1}; out=/tmp/wt-out/J${prop:1};; i) wt=/tmp/wt/K${prop:1}; out=/tmp/wt-out/K${prop:1};; j) wt=/tmp/wt/L${prop:1}; out=/tmp/wt-out/L${prop:1};; k) wt=/tmp/wt/M${prop:1}; out=/tmp/wt-out/M${prop:1};; l) wt=/tmp/wt/N${prop:1}; out=/tmp/wt-out/N${prop:1};; *) wt=/tmp/wt/$name; out=/tmp/wt-out/$name;; esac
+  case $suffix in a) wt=/tmp/wt/$prop; out=/tmp/wt-out/$prop;; b) wt=/tmp/wt/D${prop:1}; out=/tmp/wt-out/D${prop:1};; c) wt=/tmp/wt/E${prop:1}; out=/tmp/wt-out/E${prop:1};; d) wt=/tmp/wt/F${prop:1}; out=/tmp/wt-out/F${prop:1};; e) wt=/tmp/wt/G${prop:1}; out=/tmp/wt-out/G${prop:1};; f) wt=/tmp/wt/H${prop:1}; out=/tmp/wt-out/H${prop:1};; g) wt=/tmp/wt/I${prop:1}; out=/tmp/wt-out/I${prop:1};; h) wt=/tmp/wt/J${prop:1}; out=/tmp/wt-out/J${prop:1};; i) wt=/tmp/wt/K${prop:1}; out=/tmp/wt-out/K${prop:1};; j) wt=/tmp/wt/L${prop:1}; out=/tmp/wt-out/L${prop:1};; k) wt=/tmp/wt/M${prop:1}; out=/tmp/wt-out/M${prop:1};; l) wt=/tmp/wt/N${prop:1}; out=/tmp/wt-out/N${prop:1};; m) wt=/tmp/wt/O${prop:1}; out=/tmp/wt-out/O${prop:1};; *) wt=/tmp/wt/$name; out=/tmp/wt-out/$name;; esac
   [ -d $wt ] || [ "${SEED_CHECKS_ONLY:-0}" = "1" ] || { echo "$name: no worktree"; continue; }
   echo "$name: $(/verif/seedtest.sh $name $prop $wt $out 2>&1 | tail -1)"
 done
